@@ -448,6 +448,27 @@ def roundtrip_checks(tier):
                 notes.append(case)
             except Exception as e:
                 V(case, 'saving through the convention succeeds', f'{type(e).__name__}: {e}')
+        # many time steps, long variable names: saved all the same, units in the EMS form
+        for tag, nt, tname_long, first_name in (('300-steps', 300, 'time', 'a_first'), ('long-names', 3, 'time_of_the_centre_of_the_averaging_interval', 'a_variable_with_a_name_that_is_longer_than_most')):
+            case = f'roundtrip:cf1d:in-memory:{tag}'
+            tv = numpy.datetime64('2020-01-01T00:00', 'ns') + numpy.arange(nt) * numpy.timedelta64(90, 'm')
+            mem = builders.cf1d(2, 3, data_vars={first_name: (('record', 'y', 'x'), numpy.arange(nt * 6, dtype=float).reshape(nt, 2, 3))})
+            mem = mem.assign_coords({tname_long: (('record',), tv)})
+            mem[tname_long].encoding.update(units='hours since 2000-01-01T00:00:00+10:00', calendar='proleptic_gregorian', dtype='float64')
+            out = os.path.join(work, f'cf1d-mem-{tag}.nc')
+            try:
+                mem.ems.to_netcdf(out)
+                with netCDF4.Dataset(out) as B:
+                    tu = B.variables[tname_long].getncattr('units')
+                if not re.fullmatch(r'hours since \d{4}-\d{2}-\d{2} \d{2}:\d{2}:\d{2} [+-]\d{1,2}(:?\d{2})?', tu):
+                    V(case, "time units have the form '<unit> since YYYY-MM-DD HH:MM:SS <signed offset>'", tu)
+                back = emsarray.open_dataset(out)
+                if not numpy.array_equal(back[tname_long].values, tv) or not numpy.array_equal(back[first_name].values, mem[first_name].values):
+                    V(case, 'identical variable values / time instants after the round trip', tag)
+                back.close()
+                notes.append(case)
+            except Exception as e:
+                V(case, 'saving through the convention succeeds', f'{type(e).__name__}: {e}')
         # a first save that fails (the directory is not there) while the time axis is still undecoded numbers; then the
         # axis is decoded in place on the same Dataset object and the dataset is saved: the units are rewritten
         mem = builders.cf1d(2, 3, data_vars={'temp': (('record', 'y', 'x'), numpy.arange(12.0).reshape(2, 2, 3))})
